@@ -427,12 +427,12 @@ func (cs *clientStream) doHttpCall(transport http.RoundTripper, req *http.Reques
 
 	var rErr error
 	rMuHeld := false
+	var reply *http.Response
 
 	defer func() {
 		if !rMuHeld {
 			cs.rMu.Lock()
 		}
-		defer cs.rMu.Unlock()
 
 		if rErr != nil && cs.rErr == nil {
 			cs.rErr = rErr
@@ -440,6 +440,17 @@ func (cs *clientStream) doHttpCall(transport http.RoundTripper, req *http.Reques
 		cs.done = true
 		readPipe.CloseWithError(rErr)
 		close(cs.rCh)
+		cs.rMu.Unlock()
+
+		if reply != nil {
+			// Drain the reply only now that the outcome is published and the
+			// lock released: the server cannot finish its reply before it has
+			// seen the end of the request body, which may need the caller to
+			// call CloseSend - and the caller may be waiting for RecvMsg or
+			// SendMsg to tell it that the call is over.
+			ioutil.ReadAll(reply.Body)
+			reply.Body.Close()
+		}
 	}()
 
 	onReady := func(err error, headers metadata.MD) {
@@ -467,7 +478,8 @@ func (cs *clientStream) doHttpCall(transport http.RoundTripper, req *http.Reques
 		}
 	}()
 
-	reply, err := transport.RoundTrip(req.WithContext(cs.ctx))
+	var err error
+	reply, err = transport.RoundTrip(req.WithContext(cs.ctx))
 	if err != nil {
 		if err == io.EOF {
 			// e.g. the server closed the connection without sending a reply;
@@ -477,11 +489,6 @@ func (cs *clientStream) doHttpCall(transport http.RoundTripper, req *http.Reques
 		onReady(statusFromContextError(err), nil)
 		return
 	}
-	defer func() {
-		ioutil.ReadAll(reply.Body)
-		reply.Body.Close()
-	}()
-
 	if len(cs.copts.Peer) > 0 {
 		cs.copts.SetPeer(getPeer(cs.baseUrl, reply.TLS))
 	}
